@@ -17,14 +17,18 @@ RULE = ('one case = (program, settings incl. plug constructor faults and test_st
         'variants, number of callbacks 1-4, subset of callbacks that raise, history in '
         '{single, twice, thrice, overlap-from-phase-body, overlap-from-second-thread, '
         'execute-after-aborted-run}); after every execute() the callback call log, the '
-        'record handed over and the post-return state are judged; distinct = distinct '
+        'record handed over and the post-return state are judged; (race) two threads call '
+        'execute() on one Test, the first paused at every line of its path through '
+        'test_descriptor.py while the second makes its call; (abort_sched) one complete abort '
+        'while a framework thread is paused at a line reached by the C04 program family; distinct = distinct '
         'case; non-trivial = at least one callback call was observed and judged')
 ASSUMPTIONS = [
     'a "callback that raises" raises an Exception subclass (BaseException terminates the process)',
     'SIGINT / KeyboardInterrupt paths are decided in C04',
 ]
 REQUIRED_COUNTERS = ['executes', 'callback_calls_judged', 'records_judged',
-                     'overlaps_refused', 'post_state_checks']
+                     'overlaps_refused', 'post_state_checks', 'races_run',
+                     'abort_schedules']
 EXHAUSTIVE = {'quick': False, 'thorough': False}
 PLAN = {
     'quick': {'workers': 16, 'budget_s': 45, 'sampled_per_worker': 450,
@@ -84,6 +88,16 @@ def enumerated(tier):
                  'raising': [j for j in range(ncb) if mask >> j & 1]}
 
 
+  # two threads racing into execute() of one Test: the first is paused at every
+  # line of its path through test_descriptor.py while the second calls execute()
+  for idx in range(160 if tier == 'quick' else 400):
+    yield {'k': 'race', 'idx': idx}
+  # one abort at every line the framework threads reach (first two hits), the
+  # record handed to the callbacks is judged for completeness
+  for j in range(0, 1400, 2 if tier == 'quick' else 1):
+    yield {'k': 'abort_sched', 'cover': j}
+
+
 def sampled(tier, rng):
   while True:
     ncb = rng.randint(1, 4)
@@ -96,7 +110,266 @@ class CallbackBoom(ValueError):
   pass
 
 
+def settle_framework_threads(limit_s=2.0):
+  """Waits until the executor threads of finished runs are gone, so that what
+  they still log has been logged."""
+  t_end = time.monotonic() + limit_s
+  while time.monotonic() < t_end:
+    if not any(th.name.startswith('<TestExecutorThread') or
+               th.name.startswith('TestExecutorThread')
+               for th in threading.enumerate()):
+      return True
+    time.sleep(0.001)
+  return False
+
+
+def judge_phase_records(rec, bad, c, ctx):
+  for p in rec.phases:
+    c['phase_records_judged'] = c.get('phase_records_judged', 0) + 1
+    if p.outcome is None or p.result is None or p.options is None:
+      bad('phase-record-incomplete', **ctx, phase=p.name,
+          outcome=str(p.outcome), result=str(p.result),
+          options=p.options is not None)
+    elif rec.end_time_millis is None:
+      pass  # reported by the caller
+    elif p.end_time_millis is None or not (
+        p.start_time_millis <= p.end_time_millis <= rec.end_time_millis):
+      bad('phase-record-times-inconsistent', **ctx, phase=p.name,
+          times=[p.start_time_millis, p.end_time_millis,
+                 rec.end_time_millis])
+
+
+_RACE_POINTS = []
+
+
+def run_race(case):
+  """Two threads call execute() on one Test; thread vf-main is paused at a
+  line of test_descriptor.py while the other makes its call."""
+  H = pm.htf()
+  from openhtf.core import test_descriptor
+  from openhtf.util import logs
+  from vf import abortlab
+  eng = abortlab.lab()['engine']
+  c = {'executes': 0, 'callback_calls_judged': 0, 'records_judged': 0,
+       'overlaps_refused': 0, 'post_state_checks': 0, 'races_run': 0}
+  viol = []
+
+  def scenario(target):
+    for k in list(test_descriptor.Test.TEST_INSTANCES.keys()):
+      test_descriptor.Test.TEST_INSTANCES.pop(k, None)
+    ev, lock = [], threading.Lock()
+    other_started, resolved = threading.Event(), threading.Event()
+    info = {'gate_timeout': False}
+
+    def add(*e):
+      with lock:
+        ev.append(e)
+
+    def a(test):
+      add('start', threading.current_thread().name)
+      # overlapping calls: stay inside the run until one of the two calls
+      # has been resolved (normally: the other one is refused)
+      if other_started.is_set() and not resolved.wait(10):
+        info['gate_timeout'] = True
+      add('end')
+
+    t = H.Test(a)
+    t.configure(name='vf_race')
+    kept = []     # keeps the records alive so that id() identifies them
+
+    def cb(rec):
+      kept.append(rec)
+      add('callback', id(rec), rec.outcome.name if rec.outcome else None)
+    t.add_output_callbacks(cb)
+    results = {}
+
+    def call(tag):
+      try:
+        results[tag] = ('ok', t.execute())
+      except test_descriptor.InvalidTestStateError:
+        results[tag] = ('refused',)
+      except BaseException as e:  # pylint: disable=broad-except
+        results[tag] = ('other', type(e).__name__, str(e)[:120])
+      finally:
+        add('returned', tag)
+        resolved.set()
+
+    crashes = []
+    old_hook = threading.excepthook
+    threading.excepthook = lambda x: crashes.append(
+        (x.exc_type.__name__, getattr(x.thread, 'name', '?')))
+    eng.arm(target)
+    eng.enabled = True
+    t1 = threading.Thread(target=call, args=('first',), name='vf-main', daemon=True)
+    try:
+      t1.start()
+      if target is not None:
+        def second():
+          other_started.set()
+          call('second')
+        r = eng.run_action_at_pause(second, wait_s=5, hold_s=0.25)
+        info['reached'], info['blocked'] = r['reached'], r['blocked']
+        if r.get('_thread'):
+          # the second call's own phase (if it runs) waits for the first call
+          r['_thread'].join(25)
+          if r['_thread'].is_alive():
+            info['hung'] = 'second'
+      t1.join(25)
+      if t1.is_alive():
+        info['hung'] = 'first'
+    finally:
+      eng.release()
+      eng.enabled = False
+      threading.excepthook = old_hook
+      pm.prune_handlers()
+    info['seen'] = dict(eng.seen)
+    info['kept'] = kept
+    return t, ev, results, info, crashes
+
+  if not _RACE_POINTS:
+    _, _, _, info, _ = scenario(None)
+    for key, n in sorted(info['seen'].items()):
+      if key[0] == 'main':
+        for h in range(1, min(n, 2) + 1):
+          _RACE_POINTS.append((key, h))
+  if case['idx'] >= len(_RACE_POINTS):
+    return {'sig': None, 'violations': [], 'counters': {}, 'evaluations': 0,
+            'sample': False}
+  target = _RACE_POINTS[case['idx']]
+  t, ev, results, info, crashes = scenario(target)
+  ctx = {'first_call_paused_at': [list(target[0]), target[1]],
+         'results': {k: list(v) for k, v in results.items()},
+         'events': [list(e) for e in ev][:20]}
+
+  def bad(mech, **d):
+    if len(viol) < 4:
+      viol.append({'mechanism': mech, 'detail': dict(ctx, **d)})
+
+  if not info.get('reached'):
+    return {'sig': None, 'violations': [], 'counters': {'pause_not_reached': 1}}
+  c['races_run'] = 1
+  c['executes'] = len(results)
+  if info.get('hung') or info['gate_timeout']:
+    # Logical gate: the phase of the running call waits for the other call to
+    # be refused.  If that never happens both calls are inside execute().
+    starts = [e for e in ev if e[0] == 'start']
+    first_return = [i for i, e in enumerate(ev) if e[0] == 'returned'][:1]
+    if len(starts) == 2 and (not first_return or
+                             ev.index(starts[1]) < first_return[0]):
+      # two phase bodies of the same Test started while no call had returned
+      bad('overlapping-execute-not-refused', hung=info.get('hung'))
+    else:
+      bad('racing-execute-did-not-return', hung=info.get('hung'),
+          stacks=abortlab.stacks())
+    return {'sig': ['race', list(target[0]), target[1]], 'violations': viol,
+            'counters': c}
+  for tag, r in sorted(results.items()):
+    if r[0] == 'other':
+      bad('racing-execute-raised:' + r[1], call=tag, error=r[2])
+  if crashes:
+    bad('thread-crashed-during-racing-executes:' + crashes[0][0], crashes=crashes[:3])
+  oks = [tag for tag, r in results.items() if r[0] == 'ok']
+  c['overlaps_refused'] = sum(1 for r in results.values() if r[0] == 'refused')
+  if len(results) == 2 and not oks:
+    bad('both-racing-executes-refused')
+  cbs = [e for e in ev if e[0] == 'callback']
+  c['callback_calls_judged'] = len(cbs)
+  if len(cbs) != len(oks):
+    bad('callbacks-not-exactly-once-per-run', callbacks=len(cbs), runs=len(oks))
+  if len({e[1] for e in cbs}) != len(cbs):
+    bad('two-runs-handed-out-the-same-record')
+  if len(oks) == 2:
+    # both accepted: only legal one after the other
+    kinds = [e[0] for e in ev if e[0] in ('start', 'callback')]
+    if kinds != ['start', 'callback', 'start', 'callback']:
+      bad('overlapping-execute-not-refused', order=kinds)
+  c['records_judged'] = len(cbs)
+  c['post_state_checks'] = 1
+  if t.state is not None or t._executor is not None:  # pylint: disable=protected-access
+    bad('test-still-holds-executor')
+  if any(v is t for v in list(H.Test.TEST_INSTANCES.values())):
+    bad('still-registered-for-sigint')
+  if [h for h in logging.getLogger('openhtf').handlers
+      if isinstance(h, logs.RecordHandler)]:
+    bad('record-log-handler-left-behind')
+    lg = logging.getLogger('openhtf')
+    lg.handlers = [h for h in lg.handlers if not isinstance(h, logs.RecordHandler)]
+  return {'sig': ['race', list(target[0]), target[1]], 'violations': viol,
+          'counters': c}
+
+
+def run_abort_sched(case):
+  """One complete abort while a framework thread is paused at a line; what the
+  callbacks received must still be a complete, final record."""
+  from openhtf.util import logs
+  from vf import abortlab
+  from vf.props import c04
+  abortlab.lab()
+  cl = [x for x in c04.cover_list() if x[0][0][0] in ('exec', 'phase')]
+  if case['cover'] >= len(cl):
+    return {'sig': None, 'violations': [], 'counters': {}, 'evaluations': 0,
+            'sample': False}
+  target, fams = cl[case['cover']]
+  import os
+  fi = fams[(case['cover'] + int(os.environ.get('VERIF_SEED', '0'))) % len(fams)]
+  prog, cfg = c04.FAMILY[fi]
+  obs = abortlab.run(prog, cfg, target=target, action='abort')
+  viol = []
+  c = {'executes': 1, 'callback_calls_judged': 0, 'records_judged': 0,
+       'overlaps_refused': 0, 'post_state_checks': 0, 'abort_schedules': 0}
+  ctx = {'family': fi, 'abort_while_paused_at': [list(target[0]), target[1]]}
+
+  def bad(mech, **d):
+    if len(viol) < 4:
+      viol.append({'mechanism': mech, 'detail': dict(ctx, **d)})
+
+  if obs['hang'] or not obs['info']['reached']:
+    return {'sig': None, 'violations': [], 'counters': {'pause_not_reached': 1}}
+  c['abort_schedules'] = 1
+  recs = obs['recs']
+  c['callback_calls_judged'] = len(recs)
+  if len(recs) != 1:
+    bad('callbacks-not-exactly-once-in-order', called=len(recs))
+  else:
+    rec = recs[0]
+    c['records_judged'] = 1
+    if rec.outcome is None or rec.end_time_millis is None:
+      bad('record-lacks-outcome-or-end-time')
+    elif not rec.start_time_millis <= rec.end_time_millis:
+      bad('record-start-after-end')
+    if rec.dut_id is None:
+      bad('dut-id-not-set-or-wrong', got=None)
+    judge_phase_records(rec, bad, c, {})
+    n_ret = len(rec.log_records)
+    settle_framework_threads()
+    if len(rec.log_records) != n_ret:
+      bad('record-changed-after-execute-returned', at_return=n_ret,
+          later=len(rec.log_records),
+          added=[r.message[:80] for r in rec.log_records[n_ret:]][:3])
+  c['post_state_checks'] = 1
+  if obs['post'].get('executor_set'):
+    bad('test-still-holds-executor')
+  if obs['post'].get('registered'):
+    bad('still-registered-for-sigint')
+  left = [h for h in logging.getLogger('openhtf').handlers
+          if isinstance(h, logs.RecordHandler)]
+  if left:
+    bad('record-log-handler-left-behind', n=len(left))
+    lg = logging.getLogger('openhtf')
+    lg.handlers = [h for h in lg.handlers if h not in left]
+  return {'sig': ['abort_sched', fi, list(target[0]), target[1]],
+          'violations': viol, 'counters': c}
+
+
 def run_case(case):
+  if case.get('k') == 'race':
+    return run_race(case)
+  if case.get('k') == 'abort_sched':
+    return run_abort_sched(case)
+  return run_history(case)
+
+
+def run_history(case):
   H = pm.htf()
   from openhtf.core import test_descriptor
   from openhtf.util import logs
@@ -177,7 +450,7 @@ def run_case(case):
     def cb(rec):
       st = holder['t'].state
       calls.append({'j': j, 'rec': rec, 'outcome': rec.outcome,
-                    'end': rec.end_time_millis,
+                    'end': rec.end_time_millis, 'nlogs': len(rec.log_records),
                     'running_phase': (st.running_phase_state is not None)
                     if st is not None else None,
                     'state_none': st is None})
@@ -225,12 +498,20 @@ def run_case(case):
       if len({id(x['rec']) for x in calls}) != 1:
         bad('callbacks-got-different-records', **ctx)
       rec = calls[0]['rec']
+      n_ret = len(rec.log_records)
       c['records_judged'] += 1
       for x in calls:
         if x['outcome'] is None or x['end'] is None:
           bad('callback-got-unfinalized-record', **ctx, callback=x['j'])
         if x['running_phase']:
           bad('phase-still-running-during-callbacks', **ctx)
+      # ---- final: nothing is appended once execute() has returned (execute()
+      # itself logs the outcome banner after the callbacks, by design)
+      settle_framework_threads()
+      if len(rec.log_records) != n_ret:
+        bad('record-changed-after-execute-returned', **ctx,
+            at_return=n_ret, later=len(rec.log_records),
+            added=[r.message[:80] for r in rec.log_records[n_ret:]][:3])
       # ---- record completeness
       if rec.outcome is None or rec.end_time_millis is None:
         bad('record-lacks-outcome-or-end-time', **ctx)
@@ -252,19 +533,7 @@ def run_case(case):
           if snap.get(k, '<absent>') != v:
             bad('metadata-config-differs', **ctx, key=k)
             break
-      for p in rec.phases:
-        c['phase_records_judged'] += 1
-        if p.outcome is None or p.result is None or p.options is None:
-          bad('phase-record-incomplete', **ctx, phase=p.name,
-              outcome=str(p.outcome), result=str(p.result),
-              options=p.options is not None)
-        elif rec.end_time_millis is None:
-          pass  # already reported above
-        elif p.end_time_millis is None or not (
-            p.start_time_millis <= p.end_time_millis <= rec.end_time_millis):
-          bad('phase-record-times-inconsistent', **ctx, phase=p.name,
-              times=[p.start_time_millis, p.end_time_millis,
-                     rec.end_time_millis])
+      judge_phase_records(rec, bad, c, ctx)
       # ---- return value
       if ret[1] is not (rec.outcome == H.core.test_record.Outcome.PASS):
         bad('return-value-differs-from-outcome', **ctx, ret=ret[1],
